@@ -380,11 +380,17 @@ func (u *Unit) atReturn(p *Path, results []*Term) {
 		if same(before, after) {
 			continue
 		}
+		o := u.ob("frame."+cn, "frame", []string{"C08", "C09"}, "only the declared region of "+cn+" changes")
+		if u.cx.pristine(after, before) {
+			// only fresh indices were written and every havoc in between carried a full frame:
+			// the frame holds by construction of the symbolic state
+			u.check(p, o, tTrue)
+			continue
+		}
 		f := u.frameFormula(enc.comps[cn], before, after, regs[cn], u.entry.Get(u.cx, "alloc"), true)
 		if f.IsTrue() {
 			continue
 		}
-		o := u.ob("frame."+cn, "frame", []string{"C08", "C09"}, "only the declared region of "+cn+" changes")
 		u.check(p, o, f)
 	}
 	u.cover(p, "return")
@@ -407,6 +413,11 @@ func (u *Unit) atPanic(p *Path, x *ssa.Panic) {
 	for _, c := range u.bc.Panics {
 		env := u.clauseEnv(p, c.FromIface, u.paramList, nil, u.entry)
 		env.st = p.st
+		for k, v := range u.envVars(p) {
+			if _, shadow := env.vars[k]; !shadow {
+				env.vars[k] = v
+			}
+		}
 		g, err := env.EvalBool(c.Expr)
 		if err != nil {
 			u.fail("panics %s: %v", c.Label, err)
@@ -590,6 +601,9 @@ func (u *Unit) atLoopHead(p *Path, h, pred *ssa.BasicBlock, ord int, back bool) 
 			if comp.Kind == "scalar" && cn == "alloc" {
 				continue
 			}
+			if u.cx.pristine(p.st.Get(u.cx, cn), u.entry.Get(u.cx, cn)) {
+				continue
+			}
 			f := u.frameFormula(comp, u.entry.Get(u.cx, cn), p.st.Get(u.cx, cn), regs[cn], u.entry.Get(u.cx, "alloc"), true)
 			if f.IsTrue() {
 				continue
@@ -636,6 +650,12 @@ func (u *Unit) atLoopHead(p *Path, h, pred *ssa.BasicBlock, ord int, back bool) 
 	for _, cn := range sortedKeys(wcomps) {
 		comp := enc.comps[cn]
 		nv := u.cx.Fresh(cn+"@loop", comp.Sort)
+		if u.cx.frameInfo == nil {
+			u.cx.frameInfo = map[string]frameInfo{}
+		}
+		if rg := regs[cn]; cn != "alloc" {
+			u.cx.frameInfo[nv.Op] = frameInfo{base: u.entry.Get(u.cx, cn), hasRegion: rg != nil && (rg.Whole || len(rg.Idx) > 0 || len(rg.Cells) > 0)}
+		}
 		p.st.comps[cn] = nv
 		if cn == "alloc" {
 			p.assume(Ge(nv, allocBefore))
